@@ -60,6 +60,7 @@ class Gen:
         self.sites = {}         # rid -> site kind
         self.multi_attr = set() # rids of multi-entry tal:attributes (their relative order is unspecified)
         self.maxdepth = maxdepth
+        self.clause_stack = []   # define / repeat clauses of the enclosing elements (identical clause text on nested elements)
 
     def rid(self, site):
         i = next(self.ids)
@@ -113,8 +114,14 @@ class Gen:
         if 'content' in chosen and 'replace' in chosen:
             chosen.remove(rng.choice(['content', 'replace']))
         st = self.stmts_for(chosen, in_switch)
+        for kind in ('define', 'repeat'):
+            same = [c for k, c in self.clause_stack if k == kind]
+            if kind in st and same and rng.random() < .2 and type(self) is Gen:
+                st[kind] = rng.choice(same)        # the very same clause (same text) as on an enclosing element
         statics = [(n, 'S' + n) for n in ['a', 'b'] if rng.random() < .5]
         kids = []
+        pushed = [(k, st[k]) for k in ('define', 'repeat') if k in st]
+        self.clause_stack.extend(pushed)
         for _ in range(rng.randint(0, 2)):
             if depth < self.maxdepth and rng.random() < .6:
                 kids.append(self.element(depth + 1, in_switch or 'switch' in st))
@@ -122,6 +129,7 @@ class Gen:
                 kids.append(Text(rng.choice(['t', ' u ', 'x&amp;y', 'é'])))
         if rng.random() < .6:
             kids.append(Probe(['v0', 'v1', 'r0', 'g0']))
+        del self.clause_stack[len(self.clause_stack) - len(pushed):]
         tagname = rng.choice(['p', 'div', 'b', 'tal:block']) if 'attributes' not in st else rng.choice(['p', 'div', 'b'])
         indent = None
         if 'repeat' in st and not tagname.startswith('tal:'):
@@ -290,7 +298,8 @@ def layer_random(ctx, n):
     rng = ctx.rng
     for i in range(n):
         g = Gen(rng, maxdepth=2 if ctx.quick else 3)
-        root = g.element(0, False)
+        # a final probe after everything observes what survives the outermost element
+        root = El('section', [], {}, [g.element(0, False), Probe(['v0', 'v1', 'v2', 'r0', 'r1', 'g0'])])
         tal_block_fix(root)
         for b in range(3):
             table = g.table(rng)
